@@ -34,6 +34,16 @@ func EvaluateUpdate(q sql.UpdateStatementSearched, rm RelationManager) error {
 	var updateSrc []interface{}
 
 	for _, set := range q.Set {
+		// a value assigned to a column the table does not have, or a second
+		// value for the same column, would be dropped silently
+		if _, err := storage.Fields(fields).LookupFieldIdx(set.ObjectColumn); err != nil {
+			return err
+		}
+		for _, col := range cols {
+			if col == set.ObjectColumn {
+				return fmt.Errorf("%w: %s", storage.ErrFieldRepeated, col)
+			}
+		}
 		cols = append(cols, set.ObjectColumn)
 		updateSrc = append(updateSrc, set.UpdateSource)
 	}
